@@ -312,6 +312,20 @@ static void barrier_body(caller_t *c)
         EV("\"e\":\"BarRet\",\"t\":%d,\"k\":%d", c->id, first + k);
     }
 }
+/* a tasklet is not allowed to wait on a barrier (1.x API): the call is rejected
+ * and must not count as an arrival */
+static void barrier_tasklet(void *a)
+{
+    (void)a;
+    int r = ABT_barrier_wait(g_bar);
+    EV("\"e\":\"BarReject\",\"ret\":%d", r == ABT_ERR_BARRIER ? 1 : r == ABT_SUCCESS ? 0 : 2);
+}
+static void barrier_intruder(void)
+{
+    ABT_thread t;
+    CHK(ABT_task_create(g_pools[rnd(g_nes)], barrier_tasklet, NULL, &t));
+    CHK(ABT_thread_free(&t));
+}
 static void scn_barrier(void)
 {
     int n = 1 + rnd(4);
@@ -325,6 +339,8 @@ static void scn_barrier(void)
         g_c[i].x[2] = rnd(8);
     }
     EV("\"e\":\"Barrier\",\"n\":%d", n);
+    if (rnd(3) == 0)
+        barrier_intruder();
     callers_launch(32768);
     callers_join();
     /* phase 2 after reinit with a different number of waiters */
@@ -333,6 +349,8 @@ static void scn_barrier(void)
     CHK(ABT_barrier_reinit(g_bar, (uint32_t)n2));
     CHK(ABT_barrier_get_num_waiters(g_bar, &got));
     EV("\"e\":\"Barrier\",\"n\":%d", (int)got);
+    if (rnd(3) == 0)
+        barrier_intruder();
     assign_kinds(n2, 1, 0);
     int rounds2 = 1 + rnd(3);
     for (int i = 0; i < n2; i++) {
@@ -424,6 +442,9 @@ static ABT_future g_fu;
 static int g_fu_n;
 static void fu_cb(void **arr)
 {
+    /* a callback takes time: give the other callers a chance to look at the future now */
+    abtv_point();
+    abtv_point();
     char buf[128];
     int p = 0;
     buf[0] = 0;
